@@ -375,7 +375,7 @@ def check_delay(P: C.Part, s: Dict[str, Any], res, x: np.ndarray, y: np.ndarray,
     Ls = np.asarray(res.L)
     with warnings.catch_warnings(), np.errstate(all="ignore"):
         warnings.simplefilter("ignore")
-        H, rad, deg = np.asarray(res.Hxy), np.asarray(res.cf_rad), np.asarray(res.cf_deg)
+        H, rad, deg, cf = np.asarray(res.Hxy), np.asarray(res.cf_rad), np.asarray(res.cf_deg), np.asarray(res.cf)
     sigb = {"mode": s["mode"], "backend": backend, "order": order, "scheduler": o["scheduler"], "win": o["win"], "d": d}
     white = 1.0 if s["kind"] == "noise" else None
     wcache: Dict[int, np.ndarray] = {}
@@ -417,6 +417,8 @@ def check_delay(P: C.Part, s: Dict[str, Any], res, x: np.ndarray, y: np.ndarray,
                     f"|Hxy|-1={abs(H[j]) - 1:.3g}, phase error {ph:.3g} rad, bound {tol:.3g} (= {tol * L / d:.3g}*d/L), L={L}",
                  {**sigb, "sub": "delay"}, s, backend, {"bin": j, "observed": complex(H[j]), "expected": target, "tol": tol})
             continue
+        if not abs(float(cf[j]) - 1.0) <= tol + 8 * U:
+            viol(P, f"{backend}: y[n]=x[n-{d}] but cf[{j}]={cf[j]!r} (magnitude 1 within {tol:.3g})", {**sigb, "sub": "cf"}, s, backend, {"bin": j})
         # the SIGN: where the bound separates −φ from +φ, a lagging output must have negative phase
         if 0.2 <= phi <= 2.5 and tol < 0.9 * math.sin(phi):
             P.nontrivial.add(("delay", o["scheduler"], order, o["win"], backend, d, L))
